@@ -32,6 +32,7 @@ def run_case(case):
         e = base.build_expr(g)
         expr = e if expr is None else (expr | e)
     hist = []
+    prev_heap = None
     for op in case["ops"]:
         del lcalls[:]
         del ocalls[:]
@@ -47,8 +48,10 @@ def run_case(case):
                 w.run_op(op)
         except Exception as e:  # noqa
             out = dlib.exn_name(e, EXN)
+        heap = w.heap()
         hist.append({"out": out, "ocalls": [list(c) for c in ocalls], "lcalls": [list(c) for c in lcalls],
-                     "heap": w.heap()})
+                     "heap": None if heap == prev_heap else heap})
+        prev_heap = heap
     return hist
 
 
